@@ -101,7 +101,7 @@ func c08Check(e *c08Env, x *vsync.Execution, scen string) (sigs []string, msgs [
 	closedBefore := func(ts int64) bool {
 		for _, op := range e.hist.ops {
 			in := op.Input.(c08In)
-			if (in.Op == "finalize" || in.Op == "discard" || in.Op == "close") && op.Return < ts {
+			if (in.Op == "finalize" || in.Op == "discard" || in.Op == "close") && op.Call < ts {
 				return true
 			}
 		}
@@ -525,8 +525,8 @@ func genC08(tier string, emit func(any)) {
 	bound := 2
 	budget := 250000
 	if tier == "thorough" {
-		bound = 4
-		budget = 2000000
+		bound = 6
+		budget = 1500000
 	}
 	for _, sc := range c08Scenarios {
 		for _, o := range cfgs {
@@ -550,11 +550,11 @@ func init() {
 		SamplingSigPrefix: "c08:race-detector:",
 		Decode:            kit.DecodeAs[C08Case],
 		Rule: "stateless exploration of thread interleavings of the REAL blockstore/storage/deferred code under a controlled scheduler: the current sources are mechanically rewritten (sync -> shim, go -> scheduler threads, select -> modelled channel operation, accesses of index/writer objects -> happens-before hooks); " +
-			"every schedule of 12 scenarios (3-4 threads, 1-2 calls each, colliding keys, listing concurrent with puts, finalize/discard concurrent with readers) x 3 de-dup configurations is enumerated depth-first with iterative pre-emption bounding (0,1,2; thorough up to 4); per schedule: no panic, no deadlock, vector-clock race check, porcupine linearizability w.r.t. the set model, listing oracle, strict decode of the final file; " +
+			"every schedule of 15 scenarios (3-4 threads, 1-2 calls each, colliding keys, listing concurrent with puts, finalize/discard concurrent with readers) x 3 de-dup configurations is enumerated depth-first with iterative pre-emption bounding (0,1,2; thorough up to 6 or the execution cap, whichever comes first, the completed bound is reported per scenario); per schedule: no panic, no deadlock, vector-clock race check, porcupine linearizability w.r.t. the set model, listing oracle, strict decode of the final file; " +
 			"states = schedules executed; non-trivial = distinct (scenario, configuration, observable outcome); a free-running -race pass of the same bodies is reported separately (race_pass_runs) and is sampling, not the deciding step",
 		Bound: func(tier string) map[string]any {
 			if tier == "thorough" {
-				return map[string]any{"preemption_bound": 4, "threads": "3-4 (+ goroutines spawned by AllKeysChan)", "execution_cap_per_scenario": 2000000}
+				return map[string]any{"preemption_bound": 6, "threads": "3-4 (+ goroutines spawned by AllKeysChan)", "execution_cap_per_scenario": 1500000}
 			}
 			return map[string]any{"preemption_bound": 2, "threads": "3-4 (+ goroutines spawned by AllKeysChan)", "execution_cap_per_scenario": 250000}
 		},
